@@ -48,7 +48,7 @@ type vProfile struct {
 	decor3      bool  // decorators may also produce a second key they do not consume
 	scopesFirst bool  // scopes are created before the first registration only
 	noPerm      bool  // C16: keep the registration order, vary scope creation time only
-	groupNames  int   // 2: group names are drawn from {"g", "g "}
+	groupNames  int   // n>1: group names are drawn from the first n of {"g", "g ", "G", "gg"}
 	lateFirst   bool  // the late registrations come before the first Invoke (C06: right after the candidate)
 	allAccepted bool  // assume every registration is accepted
 	strictDecor bool  // assume every decorated single key has a constructor visible from the decorator's scope
@@ -275,7 +275,7 @@ func (h *vHist) genFunc(kind int, tag string) *vFunc {
 
 func vSameType(a, b reflect.Type) bool { return a == b }
 
-var vGroupNames = []string{"g", "g "}
+var vGroupNames = []string{"g", "g ", "G", "gg"}
 
 func (h *vHist) groupName(tag string) string {
 	if h.p.groupNames > 1 {
@@ -332,6 +332,7 @@ func (h *vHist) checkEnter(w *vWorld, e *vExec) {
 			h.assert("C02.once", !(o.done && o.outcome == vOK))
 			h.assert("C10.once", !(o.done && o.outcome == vOK))
 			h.assert("C12.once", !(o.done && o.outcome == vOK))
+			h.assert("C07.cached", !(o.done && o.outcome == vOK))
 		}
 	}
 	h.assert("C17.norun", !w.dry)
@@ -845,7 +846,26 @@ func (h *vHist) apply(w *vWorld, ops []vOp) {
 					}
 				}
 			}
+			decorDup := false
+			if op.f.kind == vDecor {
+				for _, r := range op.f.results {
+					if _, ok := w.decoratorAt(op.scope, r.key()); ok {
+						decorDup = true
+					}
+				}
+				for i, r := range op.f.results {
+					for j := 0; j < i; j++ {
+						if op.f.results[j].key().eq(r.key()) {
+							decorDup = true
+						}
+					}
+				}
+			}
 			_, o := w.register(op.f, op.scope)
+			if decorDup {
+				h.assert("C12.single", o.class == vcDig)
+				verifWitness("second-decorator-rejected")
+			}
 			if op.f.kind == vCtor && (h.enabled("C05s.") || h.enabled("C09.")) {
 				if dup {
 					h.assert("C09.dup", o.class == vcDig)
